@@ -281,7 +281,7 @@ def _evaluate_hook(no_cover: list[str], ignore: list[str]) -> bool:
 
 def h_import_hook(s: int, t: int, use_no_cover: bool) -> bool:
     """
-    pre: 0 <= s < 16 and 0 <= t < 16
+    pre: 0 <= s < 20 and 0 <= t < 20
     post: _
     """
     s, t, use_no_cover = realize((s, t, use_no_cover))
@@ -359,7 +359,7 @@ def h_only_and_no_cover(s: int, t: int) -> bool:
 
 def h_deco_one_marker(m: int, kind: int) -> bool:
     """
-    pre: 0 <= m < 64 and 0 <= kind <= 2
+    pre: 0 <= m < 80 and 0 <= kind <= 2
     post: _
     """
     _use(1)
@@ -371,7 +371,7 @@ def h_deco_one_marker(m: int, kind: int) -> bool:
 
 def h_deco_no_cover(s: int, m: int) -> bool:
     """
-    pre: 0 <= s < 16 and -1 <= m < 64
+    pre: 0 <= s < 20 and -1 <= m < 80
     post: _
     """
     _use(1)
@@ -384,7 +384,7 @@ def h_deco_no_cover(s: int, m: int) -> bool:
 
 def h_deco_only_cover(s: int, m: int) -> bool:
     """
-    pre: 0 <= s < 16 and -1 <= m < 64
+    pre: 0 <= s < 20 and -1 <= m < 80
     post: _
     """
     _use(1)
@@ -397,7 +397,7 @@ def h_deco_only_cover(s: int, m: int) -> bool:
 
 def h_deco_import_hook(s: int, t: int, use_no_cover: bool) -> bool:
     """
-    pre: 0 <= s < 16 and 0 <= t < 16
+    pre: 0 <= s < 20 and 0 <= t < 20
     post: _
     """
     _use(1)
@@ -439,7 +439,7 @@ def obligations(tier: str):
            Chx("only_cover", h_only_cover, timeout=T, split={"s": list(range(0, 10))}, path_timeout=60),
            Chx("only_and_no_cover", h_only_and_no_cover, timeout=T, split={"s": list(range(0, 10))}, path_timeout=60),
            Chx("import_hook_ignore_methods", h_import_hook, timeout=T, split={"s": list(range(0, 10))}, path_timeout=60)]
-    nd = 15  # scopes of corpus/C08_deco.py
+    nd = 18  # scopes of corpus/C08_deco.py
     obs += [Chx("deco_one_marker", h_deco_one_marker, timeout=T, split={"kind": [0, 1] if q else [0, 1, 2]}, path_timeout=60),
             Chx("deco_no_cover", h_deco_no_cover, timeout=T, split={"s": list(range(nd))}, path_timeout=60),
             Chx("deco_only_cover", h_deco_only_cover, timeout=T, split={"s": list(range(nd))}, path_timeout=60),
